@@ -184,8 +184,8 @@ PROPS['C12'] = dict(
           'DesignerPolicy (rebuilt per request): complete current set of completed and active trials', '3 ids, 6 kinds'),
     ] + [
         O('C12.step4_slice%d' % k, 'harness.c12_cache', 'step4', None, 1500,
-          'same with 4 ids and STOPPING trials', '4 ids x 6 kinds, slice %d/8' % k, env={'VERIF_SLICE': str(k)})
-        for k in range(8)
+          'same with 4 ids and STOPPING trials', '4 ids x 6 kinds, slice %d/12' % k, env={'VERIF_SLICE': str(k)})
+        for k in range(12)
     ])
 
 _C01_BOUND = ('study missing or in any of 4 states; trial 1 absent or in any of 5 states with 0..1 measurements; '
@@ -380,6 +380,9 @@ PROPS['C07'] = dict(
         O('C07.update_metadata_active', 'harness.c07_equiv', 'update_metadata_active', 500, 1200,
           'UpdateMetadata on an active study: both back ends = last-writer-wins oracle; an update naming a missing trial '
           'reports an error and changes nothing on either', '1..2 updates over 3 (ns,key) pairs x {study, trial 1, 2, missing}'),
+        O('C07.update_metadata_bad_id', 'harness.c07_equiv', 'update_metadata_bad_id', 200, 600,
+          'an UpdateMetadata naming an impossible trial id (0, -1, non-numeric, path-like) next to a valid item: same error '
+          'class on both datastores, nothing stored, nothing left uncommitted'),
         O('C07.update_metadata_other_states', 'harness.c07_equiv', 'update_metadata_other_states', 120, 600,
           'UpdateMetadata on a missing / inactive / completed study', '1 update'),
         O('C07.many_trials', 'harness.c07_equiv', 'many_trials', 90, 300,
@@ -599,3 +602,61 @@ PROPS['C01']['obligations'] += [
     for i, n in enumerate(_C01_MENU)
 ]
 PROPS['C01']['outside'] = 'histories longer than 6 calls; parameter payloads beyond one parameter'
+
+
+PROPS['C20'] = dict(
+    level='model_checking',
+    level_text='PARTIAL claim. The wrapper experimenters\' own Python code is executed symbolically over an UNINTERPRETED '
+               'base objective (a stub experimenter returning solver-chosen real values and recording the evaluated point): '
+               'z3 exhausts all paths or yields a counterexample replayed natively. Points that must pass through the numpy '
+               'converters, and the synthetic functions themselves, are covered only on finite dyadic grids / listed '
+               'points chosen by solver branching and run natively.',
+    encoded=['SignFlipExperimenter', 'NormalizingExperimenter', 'HyperCubeExperimenter', 'DiscretizingExperimenter(+create_with_grid)',
+             'ShiftingExperimenter', 'PermutingExperimenter', 'SwitchExperimenter', 'NoisyExperimenter(+from_type, _create_noise_fn)',
+             'NumpyExperimenter', 'MultiObjectiveNumpyExperimenter', 'HashingInfeasibleExperimenter',
+             'ParamRegionInfeasibleExperimenter', 'SparseExperimenter', 'BBOBExperimenterFactory', 'bbob.Sphere/Schwefel/StepEllipsoidal',
+             'simplekd.SimpleKDExperimenter'],
+    bounds='objective values: all reals (+nan/inf for NumpyExperimenter); discretisation: 1..3 real values; batches 0..3; '
+           'shift / hyper-cube / permutation points on dyadic grids (shift k/4, |k|<=3, 1..2 dims; 5x5 cube points; 8 seeds); '
+           '18 experimenter kinds (wrappers over Sphere/Schwefel/StepEllipsoidal/SimpleKD/stub, 2-deep stackings) x 3 points',
+    outside='the numeric values of the synthetic functions (BBOB rotations, float array programs); BBOB functions that '
+            'do not run under this image\'s numpy 2.x (float() of 1-element arrays: Rastrigin, Discus, ...); deeper '
+            'stackings; noise distributions (only reproducibility and bookkeeping); float rounding; benchmark_runner',
+    assumptions=[],
+    obligations=[
+        O('C20.sign_flip', 'harness.c20_experimenters', 'sign_flip', 200, 600,
+          'sign flip negates exactly the objectives (all metrics when asked), flips both goals, is an involution, keeps '
+          'parameters, passes infeasible trials through', env=_FF),
+        O('C20.numpy_value', 'harness.c20_experimenters', 'numpy_value', 200, 600,
+          'NumpyExperimenter: finite value -> completed with the statement\'s metric, nan/inf -> infeasible; impl sees the '
+          'suggested point; parameters kept; batches 0..2'),
+        O('C20.multiobjective_value', 'harness.c20_experimenters', 'multiobjective_value', 100, 300,
+          'MultiObjectiveNumpyExperimenter names the values after the statement\'s metrics, in order', env=_FF),
+        O('C20.normalizing_order', 'harness.c20_experimenters', 'normalizing_order', 200, 600,
+          'normalising keeps the order (and equality) of any two objective values, for 3 normalisation profiles', env=_FF),
+        O('C20.discretizing', 'harness.c20_experimenters', 'discretizing', 300, 900,
+          'discretising evaluates the base objective at float(value) of the chosen feasible value, other parameters '
+          'untouched, suggestion restored with its original type; statement lists the values', env=_FF),
+        O('C20.discretizing_rejects', 'harness.c20_experimenters', 'discretizing_rejects', 100, 300,
+          'a discretisation value is accepted iff inside the base bounds', env=_FF),
+        O('C20.switch_value', 'harness.c20_experimenters', 'switch_value', 200, 600,
+          'switch evaluates exactly the selected experimenter and reports its objective as switch_metric; infeasible '
+          'evaluations stay infeasible', env=_FF),
+        O('C20.noisy_bookkeeping', 'harness.c20_experimenters', 'noisy_bookkeeping', 300, 600,
+          'noise wrappers keep the un-noised value as <name>_before_noise, apply the noise function to the value; seeded '
+          'library noise (10 types x 4 seeds) is reproducible and its stream advances', env=_FF),
+        O('C20.shifting_grid', 'harness.c20_experimenters', 'shifting_grid', 300, 900,
+          'shifting evaluates the base objective at x - shift for every point of the (restricted) wrapper space, restores '
+          'the suggestion, restricts bounds as documented', 'dyadic grid: shift k/4, points lo + k/4, 1..2 dims'),
+        O('C20.permuting_grid', 'harness.c20_experimenters', 'permuting_grid', 200, 600,
+          'permuting applies a bijection of the feasible values of exactly the named parameters, same seed same '
+          'permutation, suggestion restored', '8 seeds, categorical(3) + discrete(4) + double'),
+        O('C20.hypercube_grid', 'harness.c20_experimenters', 'hypercube_grid', 200, 600,
+          'hyper-cube wrapper evaluates the base at lo + h * (hi - lo)', '5x5 cube points x 15 boxes'),
+        O('C20.contract', 'harness.c20_experimenters', 'contract', 300, 900,
+          'every kind: each trial of a batch is completed with finite values for all metrics of the statement or marked '
+          'infeasible, parameters (values and types) as suggested, batch == one-at-a-time', '18 kinds x batch 0..3 x 3 points'),
+        O('C20.by_value', 'harness.c20_experimenters', 'by_value', 200, 600,
+          'every kind: editing a returned problem statement (parameter, metric, goals, metadata) changes neither the next '
+          'statement nor the evaluation', '18 kinds x 3 edits'),
+    ])
